@@ -17,11 +17,15 @@ FlatCode == [i \in 1..NSYM |-> IF i <= 255 THEN Bin(i - 1, 8) ELSE Ones(8) \o <<
 DeepCode == [i \in 1..NSYM |-> IF i <= 16 THEN Ones(i - 1) \o <<0>>
                                ELSE IF i <= 31 THEN Ones(16) \o Bin(i - 17, 7)
                                ELSE Ones(16) \o Bin(30 + (i - 32), 8)]
-T == CASE Table = "doc" -> Code [] Table = "flat" -> FlatCode [] Table = "deep" -> DeepCode
+\* the flat code with the words of byte 00 and EOF exchanged: EOF = 00000000, the endless zeros
+\* after the input terminate the stream (in FlatCode EOF is all ones, in Code and DeepCode mixed)
+ZeofCode == [FlatCode EXCEPT ![1] = FlatCode[NSYM], ![NSYM] = FlatCode[1]]
+T == CASE Table = "doc" -> Code [] Table = "flat" -> FlatCode [] Table = "deep" -> DeepCode [] Table = "zeof" -> ZeofCode
 Dec == Tree(T)
 ZS == ZeroSym(T)
 
 ASSUME ValidCode(T)
+ASSUME ZeroSym(ZeofCode) = EOFSYM /\ Decode(Tree(ZeofCode), EOFSYM, <<>>, 0) = [r |-> "ok", out |-> <<>>]
 \* worked example of doc/huffman.md: 00 01 00 02 00 80 00 -> b1 08 2a 6e 00
 ASSUME Encode(Code, <<0, 1, 0, 2, 0, 128, 0>>) = <<177, 8, 42, 110, 0>>
 \* the repository's test decompress_extend_stream
